@@ -40,7 +40,8 @@ ASSUMPTIONS = [
 BACKENDS = ("fftw", "numpy", "slow", "k_list")
 DERS = (0, 1, 2, 3)
 NKFFTS = ((1, 1, 1), (2, 1, 1), (2, 3, 1), (3, 3, 3), (4, 2, 3))
-DKS = {"zero": (0.0, 0.0, 0.0), "quarter": (0.25, 0.0, 0.0), "generic": (0.123, -0.271, 0.389)}
+DKS = {"zero": (0.0, 0.0, 0.0), "quarter": (0.25, 0.0, 0.0), "generic": (0.123, -0.271, 0.389),
+       "tiny": (3e-9, -7e-9, 5e-9)}      # non-zero but below any "is it zero" tolerance
 
 
 def cases(tier, seed):
@@ -58,6 +59,12 @@ def cases(tier, seed):
                     for cen in cens:
                         for lat in lats:
                             yield {"nw": nw, "rs": rs, "cen": cen, "lat": lat, "nkfft": list(nk), "dK": dk}
+    # one Rvectors object re-used for a sequence of transforms (set_fft_R_to_k called again with another shift / library)
+    for nk in ((2, 3, 1), (3, 3, 3)):
+        for rs in ("shell1", "lopsided"):
+            for lat in ("hex", "tric"):
+                yield {"kind": "reuse", "nw": 2, "rs": rs, "cen": "generic", "lat": lat, "nkfft": list(nk),
+                       "depth": 2 if tier == "quick" else 3}
 
 
 def reference(system, kred, der):
@@ -96,7 +103,40 @@ def scale_of(x):
     return max(1.0, float(np.abs(x).max()))
 
 
+def run_reuse(case, seed):
+    """every ordered sequence (depth 2 / 3) of (fftlib, dK) settings applied to ONE Rvectors object through repeated
+    set_fft_R_to_k calls; after the last call the transforms must equal the explicit sum for the LAST setting"""
+    import itertools
+    from wbmc import zoo
+    nw, rs, cen, lat = case["nw"], case["rs"], case["cen"], case["lat"]
+    NK = tuple(case["nkfft"])
+    s = zoo.make_system(nw, lat, rs, cen, seed=seed, matrices=("Ham",), tag="C02")
+    settings = [(lib, dk) for lib in ("fftw", "numpy", "slow") for dk in DKS]
+    grid_pts = np.array([[ix / NK[0], iy / NK[1], iz / NK[2]] for ix in range(NK[0]) for iy in range(NK[1]) for iz in range(NK[2])])
+    refs = {dk: {d: reference(s, grid_pts + np.array(DKS[dk])[None, :], d) for d in (0, 1)} for dk in DKS}
+    nseq = 0
+    for seq in itertools.product(settings, repeat=case["depth"]):
+        if len({dk for _, dk in seq}) < 2:
+            continue            # only sequences in which the shift changes are new with respect to the plain cases
+        rv = s.rvec.copy()
+        for lib, dk in seq:
+            rv.set_fft_R_to_k(NK=np.array(NK), num_wann=nw, fftlib=lib, dK=np.array(DKS[dk], dtype=float))
+            outs = {d: np.array(rv.R_to_k(rv.apply_expdK(np.array(s.get_R_mat("Ham"))).copy(), der=d, hermitian=True)).copy() for d in (0, 1)}
+        nseq += 1
+        lib, dk = seq[-1]
+        for d in (0, 1):
+            ref = refs[dk][d]
+            err = float(np.abs(outs[d] - ref).max())
+            if err > 1e-10 * scale_of(ref):
+                return {"ok": False, "key": "Rvectors:reuse:result_depends_on_previous_setting", "nontrivial": True,
+                        "detail": f"nw={nw} rset={rs} lat={lat} NKFFT={NK}: after set_fft_R_to_k for {list(seq[:-1])} and then (fftlib={lib}, "
+                                  f"dK={dk}) on the same Rvectors object, der={d} differs from the explicit sum by {err:.3g}"}
+    return {"ok": True, "nontrivial": ("reuse", rs, lat, NK), "obs": {"sequences": nseq}}
+
+
 def run_case(case, seed):
+    if case.get("kind") == "reuse":
+        return run_reuse(case, seed)
     from wbmc import zoo
     from wannierberri.grid import Grid
     from wannierberri.data_K.data_K_R import Data_K_R
